@@ -194,7 +194,7 @@ Bd(media, bi, req) == [media |-> media, schema |-> BodyPool[bi], required |-> re
 MJson == "application/json"
 MText == "text/plain"
 (* parameter / body sets are written as index tuples: <<>>, <<req, leaf>> or <<req, leaf, leaf2>> (second one optional) *)
-LeafIdx(loc) == IF Rich THEN (IF loc = "query" THEN 1..12 ELSE {1, 2, 3, 4, 5, 6, 9, 12}) ELSE (IF loc = "query" THEN {1, 2, 3, 4, 5, 6, 10} ELSE {1, 2, 5, 6})
+LeafIdx(loc) == IF Rich THEN (IF loc = "query" THEN 1..12 ELSE {1, 2, 3, 4, 5, 6, 9, 12}) ELSE (IF loc = "query" THEN {1, 2, 3, 4, 5, 6, 10, 11} ELSE {1, 2, 5, 6})
 QueryIdx == {<<0, 0, 0>>} \cup {<<r, a, 0>> : r \in {1, 2}, a \in LeafIdx("query")} \cup {<<r, a, b>> : r \in {1, 2}, a \in LeafIdx("query"), b \in {1, 2, 6}}
 PathIdx == {<<0, 0, 0>>} \cup {<<2, a, 0>> : a \in LeafIdx("path")} \cup {<<2, a, b>> : a \in {1, 6}, b \in {2, 5}}
 HeaderIdx == {<<0, 0, 0>>} \cup {<<r, a, 0>> : r \in {1, 2}, a \in LeafIdx("header")} \cup {<<2, a, b>> : a \in {1, 6}, b \in {2, 6}}
@@ -202,7 +202,7 @@ CookieIdx == {<<0, 0, 0>>} \cup {<<r, a, 0>> : r \in {1, 2}, a \in {1, 2, 6}}
 MkParams(loc, n1, n2, x) ==      \* x = <<0 none | 1 optional | 2 required, leaf index, second leaf index or 0>>
   IF x[1] = 0 THEN <<>>
   ELSE <<P(loc, n1, x[1] = 2, x[2])>> \o (IF x[3] = 0 THEN <<>> ELSE <<P(loc, n2, loc = "path", x[3])>>)
-BodyIdxSet == {<<0, 0, 0>>} \cup {<<r, b, 0>> : r \in {1, 2}, b \in (IF Rich THEN 1..10 ELSE {1, 2, 3, 4, 5, 8})}
+BodyIdxSet == {<<0, 0, 0>>} \cup {<<r, b, 0>> : r \in {1, 2}, b \in (IF Rich THEN 1..10 ELSE {1, 2, 3, 4, 5, 8, 9})}
               \cup {<<2, a, b>> : a \in {1, 2, 4}, b \in {3, 4}}
 MkBodies(d, x) == IF x[1] = 0 THEN <<>>
                   ELSE IF x[3] = 0 THEN <<Bd(MJson, x[2], x[1] = 2)>>
@@ -355,13 +355,12 @@ C01_Case(op, c, vs) ==
   ELSE IF op.cfg.codec = "utf-8" /\ \E x \in CaseText(c) : x >= 55296 /\ x <= 57343 THEN "outside-codec"
   ELSE "ok"
 (* ---- C02 ---- *)
-C02_Case(op, c, vs) ==
-  IF c.labels.case # "negative" THEN "case-not-labelled-negative"
-  ELSE IF ~\E p \in Parts : c.labels[p] = "negative" THEN "no-part-labelled-negative"
-  ELSE IF \E p \in Parts : c.labels[p] = "negative" /\ ~Present(c, p) THEN "part-absent-but-labelled"
-  ELSE IF \E p \in Parts : c.labels[p] = "negative" /\ Present(c, p) /\ vs[p] = "T" THEN "valid-labelled-negative"
-  ELSE IF \E p \in Parts : c.labels[p] = "positive" /\ vs[p] = "F" THEN "invalid-labelled-positive"
-  ELSE "ok"
+C02_Case(op, c, vs) ==          \* the SET of rules the case breaks (independent clauses of the property)
+  (IF c.labels.case # "negative" THEN {"case-not-labelled-negative"} ELSE {})
+  \cup (IF ~\E p \in Parts : c.labels[p] = "negative" /\ Present(c, p) THEN {"no-present-part-labelled-negative"} ELSE {})
+  \cup (IF \E p \in Parts : c.labels[p] = "negative" /\ ~Present(c, p) THEN {"part-absent-but-labelled"} ELSE {})
+  \cup (IF \E p \in Parts : c.labels[p] = "negative" /\ Present(c, p) /\ vs[p] = "T" THEN {"valid-labelled-negative"} ELSE {})
+  \cup (IF \E p \in Parts : c.labels[p] = "positive" /\ vs[p] = "F" THEN {"invalid-labelled-positive"} ELSE {})
 
 (* ---- outcome rules: witnesses from a bounded universe, so "satisfiable"/"negatable" are claimed only with a witness ---- *)
 StrU == {<<>>, <<97>>, <<97, 98>>, <<97, 98, 99>>, <<97, 98, 99, 100>>, <<49, 50>>, <<49, 50, 51>>, <<65, 98>>, <<98, 98>>, <<98, 99>>, <<97, 48>>,
@@ -384,14 +383,18 @@ ExistsBodyU(Pr(_)) ==
   \/ (\E a \in DOMAIN SmallU, b \in DOMAIN SmallU : Pr(Obj(<<ka, kb>>, <<SmallU[a], SmallU[b]>>)))
 Sendable(loc, txt) == IF loc = "path" THEN txt # <<>> /\ ~\E i \in DOMAIN txt : txt[i] \in {47, 123, 125} ELSE TRUE
 ParamSat(op, p) == \E s \in StrU : Sendable(p.loc, s) /\ CoercedD(op.defs, s, p.schema, "request") = "T"
-ParamNeg(op, p) == p.required \/ \E s \in StrU : Sendable(p.loc, s) /\ CoercedD(op.defs, s, p.schema, "request") = "F"
+ParamNeg(op, p) == (p.required /\ p.loc = "query")       \* omitting a required query parameter; path values cannot be omitted, and the
+                   \/ \E s \in StrU : Sendable(p.loc, s) /\ CoercedD(op.defs, s, p.schema, "request") = "F"    \* property itself lists string headers as not negatable
 BodySat(op, b) == LET Pr(v) == ValidD(op.defs, b.schema, v, "request", op.dia) = "T" IN ExistsBodyU(Pr)
 BodyNeg(op, b) == LET Pr(v) == ValidD(op.defs, b.schema, v, "request", op.dia) = "F" IN ExistsBodyU(Pr)
 Satisfiable(op) == (\A i \in DOMAIN op.params : ParamSat(op, op.params[i])) /\ (\A i \in DOMAIN op.bodies : BodySat(op, op.bodies[i]))
 Negatable(op) == (\E i \in DOMAIN op.params : ParamNeg(op, op.params[i])) \/ (\E i \in DOMAIN op.bodies : BodyNeg(op, op.bodies[i]))
-(* unambiguously NOT negatable: nothing declared at all, or only bodies that accept everything *)
-NothingToNegate(op) == Len(op.params) = 0 /\ \A i \in DOMAIN op.bodies : op.bodies[i].schema = S0
-C01_Outcome(op, outcome_) == IF outcome_ = "unsat" /\ Satisfiable(op) THEN "satisfiable-but-unsat" ELSE "ok"
+(* unambiguously NOT negatable (the property's own list): nothing declared at all, bodies that accept everything, plain
+   string-typed path parameters and optional plain string-typed headers *)
+PlainString(p) == p.schema = Ty("string")
+NothingToNegate(op) == /\ \A i \in DOMAIN op.params : PlainString(op.params[i]) /\ (op.params[i].loc = "path" \/ (op.params[i].loc = "header" /\ ~op.params[i].required))
+                       /\ \A i \in DOMAIN op.bodies : op.bodies[i].schema = S0
+C01_Outcome(op, outcome_) == IF outcome_ \in {"unsat", "error"} /\ Satisfiable(op) THEN "satisfiable-but-" \o outcome_ ELSE "ok"   \* no cases although every input admits a value
 C02_Outcome(op, outcome_, modesNegOnly) ==
   IF outcome_ \in {"unsat", "skipped"} /\ Negatable(op) /\ ~NothingToNegate(op) THEN "negatable-but-no-cases"
   ELSE IF modesNegOnly /\ NothingToNegate(op) /\ outcome_ # "skipped" THEN "not-negatable-not-skipped"
